@@ -1,13 +1,18 @@
+// Reference implementation (specification) for the RealDecisionMaker verification framework.
+//
+// This file is NOT part of the repository build. The analyzer (/verif/analyzer) loads it as an
+// in-memory overlay next to the package it describes and compares, statically, the value graph of
+// every Spec_X declaration with that of the repository's X (see DESIGN.md, engine E5). Each
+// function states what the corresponding repository function has to compute according to
+// /verif/properties.jsonl; it was reviewed against the property statements, not generated at
+// check time, and it is never executed.
+
 package utils
 
 import (
-	"github.com/google/go-cmp/cmp"
-	"github.com/google/go-cmp/cmp/cmpopts"
 	"github.com/mitchellh/mapstructure"
 	"math"
 	"math/rand"
-	"reflect"
-	"testing"
 )
 
 func Spec_ContainsString(slice *[]string, value *string) bool {
@@ -39,31 +44,6 @@ func Spec_ContainsInts(slice *[]int, value *int) bool {
 
 func Spec_FloatsAreEqual(expected float64, actual float64, epsilon float64) bool {
 	return math.Abs(expected-actual) <= epsilon
-}
-
-func Spec_ErrorDiffers(err interface{}, message string) bool {
-	return err.(error).Error() != message
-}
-
-func Spec_ExpectError(t *testing.T, expectedMessage string) func() {
-	return func() {
-		if e := recover(); e == nil {
-			t.Errorf("expected error with message '%s'", expectedMessage)
-		} else if ErrorDiffers(e, expectedMessage) {
-			t.Errorf("invalid error message:\nactual   '%s'\nexpected '%s'", e, expectedMessage)
-		}
-	}
-}
-
-func Spec_CheckValueRange(t *testing.T, valueRange ValueRange, expMin, expMax float64) {
-	validateValue(t, "min", expMin, valueRange.Min)
-	validateValue(t, "max", expMax, valueRange.Max)
-}
-
-func Spec_validateValue(t *testing.T, name string, expected, actual float64) {
-	if !FloatsAreEqual(actual, expected, 1e-6) {
-		t.Errorf("%s value expected %f, got %f", name, expected, actual)
-	}
 }
 
 func Spec_IsPositive(value float64) bool {
@@ -123,8 +103,3 @@ func Spec_NewValueInRangeGenerator(generator ValueGenerator, valueRange *ValueRa
 	}
 }
 
-func Spec_Differs(a, b interface{}) bool {
-	return !cmp.Equal(a, b, cmpopts.EquateApprox(0, 1e-8), cmp.Exporter(func(r reflect.Type) bool {
-		return true
-	}))
-}
